@@ -20,8 +20,12 @@ class Recorder:
         return T.var("%s_%d" % (prefix, self.n), w, lo, hi) if lo is not None else T.var("%s_%d" % (prefix, self.n), w)
 
 
-def uf(name, idx, args, w):
-    return T._mk("uf:" + name, tuple(args), w, idx)
+def uf(name, idx, args, w, widths=None):
+    """uninterpreted function application; widths = bit widths of the arguments
+    (needed for constant arguments)"""
+    if widths is None:
+        widths = tuple(x.w if isinstance(x, T.Term) else 8 for x in args)
+    return T._mk("uf:" + name, tuple(args), w, (idx, tuple(widths)))
 
 
 def discover_layout(module, pattern, objsize, nargs_extra=0):
@@ -79,7 +83,8 @@ def install_sha2_uf(ex, lay, rec, tag):
         b = ex_.read_bytes(Ptr(self_p.obj, self_p.off + lay["buf"]), blk)
         rec.calls.append((tag, {"h": h, "block": b}))
         for i in range(8):
-            ex_.store(Ptr(self_p.obj, self_p.off + lay["h"] + wb * i), wb, uf(tag, i, h + b, 8 * wb))
+            ex_.store(Ptr(self_p.obj, self_p.off + lay["h"] + wb * i), wb,
+                      uf(tag, i, h + b, 8 * wb, [8 * wb] * 8 + [8] * blk))
         return None
     ex.add_call_hook(lay["pattern"], hook)
 
@@ -103,7 +108,7 @@ def sha2_uf_spec(msg_bytes, tag, big=True):
     h = list(iv)
     for i in range(0, len(m), blk):
         b = m[i:i + blk]
-        h = [uf(tag, k, h + b, 8 * wb) for k in range(8)]
+        h = [uf(tag, k, h + b, 8 * wb, [8 * wb] * 8 + [8] * blk) for k in range(8)]
     out = []
     for x in h:
         for k in range(wb):
